@@ -385,6 +385,11 @@ fn run(seed: u64) -> RunReport {
     });
     rep.signature = sig.get();
     rep.log_digest = log.get();
+    rep.sample = Some(json!({
+        "phase": if case.startup { "startup" } else { "regular" },
+        "frames": case.frames.iter().map(|f| json!({"kind": f.kind, "bytes": f.bytes.len(), "message": f.msg.as_ref().map(|m| format!("{:?}", m).chars().take(60).collect::<String>())})).collect::<Vec<_>>(),
+        "fragment_sizes": case.fragments.iter().map(|f| (*f).min(1 << 20)).collect::<Vec<_>>(),
+    }));
     if let Some((oracle, detail)) = v {
         let small = minimise(&case, &oracle);
         rep.violation = Some(Violation { property: "C27".into(), oracle: oracle.clone(), detail: detail.clone(), step: 0 });
